@@ -36,15 +36,23 @@ Outside has_type (counted in the evidence as `excluded_types`, never generated i
 told from an absent entry — coordinator decision S4).  Maps whose stringified keys collide are not generated
 (keys of one map are pairwise distinct and of one type).
 
+Nested-None family (kind `nested-none:<shape>`, gen_serde.nested_none_case): a None that is not handed directly to a
+struct field / map entry but sits below one — in a sequence, behind Some (Option<Option<_>>), in a newtype, a tuple, a
+tuple struct, a newtype / tuple variant's payload, in a sequence inside a map — at the root struct or up to two containers
+deep; plus the control shapes (None directly in a field of a struct, struct variant, nested struct: left out and read
+back).  Every one of the 7 routes must answer unsupported-none on the former and succeed on the latter.
+
 Known classes (genuine defects recorded, not repaired; `known_class` returns the id):
-  C07-tryfrom-nested-none-dropped   toml::Value::try_from / toml::Table::try_from: `SerializeMap::serialize_value`
-        (toml/src/value.rs) swallows ANY UnsupportedNone coming out of a field's value, not only a direct None:
-        V{v: Some(vec![Some(1), None])} -> Ok(Table{}) (the other five routes answer Err(UnsupportedNone)).
-        Classifier: route val/tab and the value has a None in a non-tolerated position below a struct field,
-        struct-variant field or map value (gen_serde.nested_none_below_field).
+  (repaired in /repo, no longer accepted as a class; the former witnesses stay in the fixed cases as regression cases:
+     C07-tryfrom-nested-none-dropped   toml::Value::try_from / toml::Table::try_from: `SerializeMap::serialize_value`
+        (toml/src/value.rs) swallowed ANY UnsupportedNone coming out of a field's value, not only a direct None:
+        V{v: Some(vec![Some(1), None])} -> Ok(Table{}) where the other five routes answer Err(UnsupportedNone).  Now only a
+        None handed directly to the field's serializer leaves the entry out, as toml_edit's MapValueSerializer does.)
   private-datetime-key (F14)        the case spells one of the private in-band names of the serde tunnels
-        (`$__toml_private_datetime`, `$__serde_spanned_private_*`) or puts a Datetime at the document root of
-        toml::to_string / Table::try_from, which prints the private key instead of refusing (S6).
+        (`$__toml_private_datetime`, `$__serde_spanned_private_*`) or puts a Datetime at the root of Table::try_from, which
+        answers the table { "$__toml_private_datetime" = ".." } instead of refusing (S6; value.rs
+        TableSerializer::serialize_struct).  (toml::to_string / to_string_pretty did the same until the repair of
+        C06-root-datetime-printed-as-table and refuse a root date-time now, like toml_edit::ser::to_string.)
 """
 import collections, tomllib
 
@@ -64,14 +72,17 @@ THEOREMS = [
     "C07_supported / C07_unsupported_refused / C07_ok_iff_supported: ser_value succeeds exactly on the values without a documented unsupported shape",
     "C07_edit_{roundtrip,errors,supported}: document root of toml_edit::ser::{to_string,to_string_pretty,to_document} (error only for an unsupported shape or a root that is not table-shaped)",
     "C07_toml_{roundtrip,errors,supported}: document root of toml::{to_string,to_string_pretty} (additionally: struct variant at the root refused by name, tuple variant at the root refused as non-table)",
-    "C07_tryfrom_roundtrip_refuted / C07_tryfrom_undecodable_refuted: the round-trip statement is FALSE for toml::Value::try_from / Table::try_from (known finding C07-tryfrom-nested-none-dropped), proved with the witness",
-    "C07_tryfrom_roundtrip_partial / C07_table_tryfrom_roundtrip_partial / C07_tryfrom_errors: for values without any unsupported shape try_from succeeds and try_into gives the value back; a try_from error implies some unsupported shape",
+    "C07_tryfrom_roundtrip / C07_table_tryfrom_roundtrip: forall ty v out, has_type v ty -> doc_keys ty = true -> tv_ser ty v = Ok out (resp. tv_ser_table) -> exists v', tv_de ty out = Ok v' /\\ sval_eq v v'  (toml::Value::try_from / Table::try_from read back by try_into; doc_keys: no map key type is char / Option<_>, which only try_from accepts as keys)",
+    "C07_tryfrom_ok_iff_supported / C07_table_tryfrom_supported / C07_tryfrom_errors: under doc_keys Value::try_from accepts exactly the values without a documented unsupported shape (the verdict of the text routes), Table::try_from no more than those; a try_from error implies some unsupported shape",
+    "C07_tryfrom_supported_roundtrip / C07_table_tryfrom_supported_roundtrip: for every type, a value without any unsupported shape is accepted by try_from and read back",
+    "C07_tryfrom_nested_none_refused / C07_tryfrom_direct_none_skipped / C07_tryfrom_nested_none_shapes: the former witnesses of the repaired C07-tryfrom-nested-none-dropped are refused with UnsupportedNone by try_from as by ValueSerializer; a None directly in a field is left out; Some(None), newtype / tuple / variant payload / map-nested None are refused",
 ]
 RULE = ("random types of depth <= 5 over the whole type language (structs, maps with string / unit-variant / newtype keys, "
         "sequences, tuples, newtypes, tuple structs, options, all four variant kinds, every integer width, f32/f64, chars, "
         "strings, date-times, untyped toml::Value leaves, unit / unit structs / non-string keys / 128-bit integers as unsupported "
         "shapes) x adversarial values; each pair through all 7 encoding routes and back; plus the duplicate-key family (maps written "
-        "from pair lists that repeat a key: all routes keep the last value); non-trivial = type depth >= 2")
+        "from pair lists that repeat a key: all routes keep the last value) and the nested-None family (a None below a field in "
+        "each of 11 positions, 3 control shapes: all routes refuse / leave out alike); non-trivial = type depth >= 2")
 ASSUMPTIONS = [
     "serde_derive / serde's std impls (which Serializer / Deserializer method is called for each shape, Option fields skipped on None, missing field => None, first-match field and variant identifiers) are written into coq/Model/Ser.v, De.v as their functional spec; the same protocol is the runtime-typed driver `dynserde`, checked on every run against ~36 families of real derived types (command `fidelity`)",
     "has_type excludes: maps whose value type is an Option (S4), maps whose stringified keys collide, structs named like the private tunnels, duplicate field / variant names, date-times outside the ranges the date-time parser accepts (C12 in_range); Option<Option<_>> is NOT excluded by the Coq theorems (the generator excludes it)",
@@ -88,7 +99,7 @@ N_FIDELITY = 37
 # F6 (repaired in /repo, commit 7e06b65): toml_edit::ser::to_string_pretty turned v = ["U", { B = { inner = 1 } }] into v = ["U", {}]
 F6_TY = ("S", "S", [("v", ("L", ("E", "E", [("U", "u", None), ("B", "s", [("inner", ("int", "i32"))])])))])
 F6_VAL = ("R", [("L", [("E", 0, ("U",)), ("E", 1, ("R", [("I", 1)]))])])
-# S3 witnesses (known class C07-tryfrom-nested-none-dropped)
+# S3 witnesses (C07-tryfrom-nested-none-dropped, repaired in /repo): regression cases
 S3_TY = ("S", "V", [("v", ("O", ("L", ("O", ("int", "i32")))))])
 S3_VAL = ("R", [("O", ("L", [("O", ("I", 1)), ("N",)]))])
 S3B_TY = ("S", "V", [("a", ("int", "i32")), ("v", ("L", ("O", ("int", "i32"))))])
@@ -107,8 +118,16 @@ def fixed_cases():
     out.append(ser_case(F6_TY, F6_VAL, "F6-witness"))
     out.append(ser_case(S3_TY, S3_VAL, "S3-witness"))
     out.append(ser_case(S3B_TY, S3B_VAL, "S3-witness"))
+    # a date-time at the ROOT (the witness of the repaired C06-root-datetime-printed-as-table): refused as a non-table by
+    # all five document routes, Value::try_from yields the date-time (Table::try_from: known class private-datetime-key)
     dt = ("X", "1979-05-27T07:32:00Z")
     out.append(ser_case(("dt",), dt, "root-datetime"))
+    out.append(ser_case(("da",), ("X", "1979-05-27"), "root-datetime"))
+    out.append(ser_case(("ti",), ("X", "07:32:00.5"), "root-datetime"))
+    out.append(ser_case(("O", ("dt",)), ("O", dt), "root-datetime"))
+    out.append(ser_case(("N", "W", ("dt",)), ("W", dt), "root-datetime"))
+    out.append(ser_case(("v",), ("V", ("X", "1979-05-27T07:32:00Z")), "root-datetime"))
+    out.append(ser_case(("N", "W", ("O", ("v",))), ("W", ("O", ("V", ("X", "1979-05-27")))), "root-datetime"))
     out.append(ser_case(("S", "S", [("$__toml_private_datetime", ("s",))]), ("R", [("S", "1979-05-27")]), "private-field"))
     out.append(ser_case(("S", "S", [("$__toml_private_datetime", ("s",))]), ("R", [("S", "x")]), "private-field"))
     return out
@@ -131,6 +150,10 @@ def gen_cases(rng, tier):
     for _ in range(400 if tier == "quick" else 6000):
         ty, v = G.dup_key_case(rng)
         out.append(ser_case(ty, v, "dup-key"))
+    # the nested-None family: every shape a None can hide in below a field, on all 7 routes
+    for i in range(700 if tier == "quick" else 14000):
+        ty, v, shape = G.nested_none_case(rng, G.NESTED_NONE_SHAPES[i % len(G.NESTED_NONE_SHAPES)])
+        out.append(ser_case(ty, v, "nested-none:" + shape))
     # how often the exclusion bites on an unrestricted generator (evidence only)
     STATS["excluded_types"] = sum(1 for _ in range(2000) if G.excluded_type(gx.ty()))
     STATS["excluded_types_out_of"] = 2000
@@ -235,10 +258,13 @@ def judge(case, line):
             continue
         STATS["ok:" + r] += 1
         cls = None
-        if private or (root_dt and r in ("tp", "tpp", "tab")):
+        if private or (root_dt and r == "tab"):
             cls = "private-datetime-key"
-        elif r in ("val", "tab") and G.nested_none_below_field(ty, v):
-            cls = "C07-tryfrom-nested-none-dropped"
+        # a documented unsupported shape must be REFUSED (C07_unsupported_refused / C07_toml_errors /
+        # C07_tryfrom_ok_iff_supported): a success here means something was silently dropped or rewritten
+        if allowed and cls is None and case.meta.get("kind") != "dup-key":
+            out.append(("route %s succeeds although the value has the documented unsupported shape(s) %s" % (r, sorted(allowed)), None))
+            continue
         _, payload, rts, invalid, _tree, _lay = x
         if invalid:
             out.append(("route %s: output is not valid TOML: %r" % (r, bytes.fromhex(payload).decode("utf-8", "replace") if payload != "-" else ""), cls))
